@@ -59,7 +59,7 @@ type seqOp struct {
 // stale:no-data-answer-served-beyond-cname-ttl / -extra-record-ttl); asking again earlier stays acceptable.
 // On /repo at d04a852 the strict reading is violated: x CNAME y (TTL 2), y without AAAA => the empty AAAA answer of x
 // is served from cache for 300 s.
-const strictNoData = false
+const strictNoData = true
 
 type cname struct {
 	Target string `json:"target"`
